@@ -296,6 +296,7 @@ func (v *Float) Set(d interface{}) error {
 	if res, ok := d.(float64); ok {
 		v.value = res
 		v.valid = true
+		v.source = nil // the text kept from a previous FromBytes no longer denotes the value
 		return nil
 	}
 
